@@ -1,3 +1,4 @@
+import Driver.Lru
 import Driver.Decorator
 import Driver.Adapters
 import Driver.ContextManager
@@ -15,6 +16,7 @@ def dispatch (j : Json) : Except String Json := do
   | "contextmanager" => Drv.ContextManager.run j
   | "adapters" => Drv.Adapters.run j
   | "decorator" => Drv.Decorator.run j
+  | "lru" => Drv.Lru.run j
   | _ => throw s!"unknown machine {m}"
 
 partial def loop (h : IO.FS.Stream) (out : IO.FS.Stream) : IO Unit := do
